@@ -469,6 +469,32 @@ def check_c17(prop, tier, seed):
             if r[0] != "done" or pick(r[1]) is not val:
                 v.violation(f"C17/{name}/plain-result-of-synchronous-callable-awaited-or-replaced",
                             {"engine": "scenario", "cfg": {"result_kind": kind}, "observed": repr(r)[:200]})
+    # library iterators that are simply dropped -- advanced once, neither exhausted nor closed -- are the garbage
+    # collector's business: no loop is looked for, nothing is scheduled
+    import gc  # noqa: PLC0415
+
+    async def agen3():
+        for x in (1, 2, 3):
+            yield x
+
+    for name, mk in (("chain", lambda: L_.chain(agen3(), agen3())), ("chain.from_iterable", lambda: L_.chain.from_iterable([agen3(), agen3()])),
+                     ("zip", lambda: L_.zip(agen3(), agen3())), ("map", lambda: L_.map(abs, agen3())), ("islice", lambda: L_.islice(agen3(), 2)),
+                     ("merge", lambda: L_.merge(agen3(), agen3())), ("groupby", lambda: L_.groupby(agen3())), ("tee", lambda: L_.tee(agen3(), n=2)[0]),
+                     ("zip_longest", lambda: L_.zip_longest(agen3(), agen3())), ("batched", lambda: L_.batched(agen3(), 2)),
+                     ("borrow", lambda: L_.borrow(agen3())), ("accumulate", lambda: L_.accumulate(agen3()))):
+        before = len(_LOOP_CALLS)
+        it = mk()
+        it = it if hasattr(it, "__anext__") else it.__aiter__()
+        acct = Accounting()
+        Task(it.__anext__(), acct).run()
+        del it
+        gc.collect()
+        drain_asyncgens(acct)
+        gc.collect()
+        runs += 1
+        if len(_LOOP_CALLS) != before or acct.foreign:
+            v.violation(f"C17/{name}/dropped-iterator-looks-for-an-event-loop",
+                        {"engine": "scenario", "observed": {"loop_calls": _LOOP_CALLS[before:][:3], "foreign": [repr(x)[:60] for x in acct.foreign[:2]]}})
     # importing and using the library needs no running loop and creates none
     code = ("import asyncio, asyncio.events as ev, sys; sys.path.insert(0, %r); import asyncstdlib as a\n"
             "assert ev._get_running_loop() is None\n"
@@ -825,6 +851,9 @@ VARIANTS = {
     "map#builtin-function": ("map", lambda L, S: L.map(max, S[0], S[1])),
     "filter#builtin-bool": ("filter", lambda L, S: L.filter(bool, S[0])),
     "accumulate#operator-add": ("accumulate", lambda L, S: L.accumulate(S[0], operator.add)),
+    "islice#open-ended-big-step": ("islice", lambda L, S: L.islice(S[0], 0, None, 40)),
+    "islice#big-step": ("islice", lambda L, S: L.islice(S[0], 0, 10 ** 6, 40)),
+    "batched#threes": ("batched", lambda L, S: L.batched(S[0], 3)),
 }
 
 
